@@ -85,7 +85,8 @@ static void op_ppushm(actor *a, op_t *o)
     stat_add("pool_pushes", n);
 }
 /* variant: 0 pop_thread, 1 pop_thread_ex(ctx), 2 ABT_pool_pop, 3 pop_wait_thread(us),
- *          4 ABT_pool_pop_timedwait(us from now), 5 ABT_pool_pop_wait */
+ *          4 ABT_pool_pop_timedwait(us from now), 5 ABT_pool_pop_wait,
+ *          6 pop_wait_thread_ex(30 us, ctx = arg) */
 static void op_ppop(actor *a, int p, int variant, long arg)
 {
     ABT_thread t = ABT_THREAD_NULL;
@@ -111,6 +112,12 @@ static void op_ppop(actor *a, int p, int variant, long arg)
         }
         case 5:
             rc = ABT_pool_pop_wait(G.pool[p].h, &unit, (double)arg * 1e-6);
+            break;
+        case 6:
+            tail = (arg == 2);
+            rc = ABT_pool_pop_wait_thread_ex(G.pool[p].h, &t, 30e-6, ctx_of((int)arg));
+            arg = 30;
+            stat_add("pool_pop_wait_ex", 1);
             break;
         default:
             rc = ABT_pool_pop_thread(G.pool[p].h, &t);
